@@ -1,4 +1,4 @@
-(* Proofs/BitAddr.v — digit/bit addressing of a little-endian digit list:
+(* Proofs/BitAddrC06.v — digit/bit addressing of a little-endian digit list:
    bit i of the value is bit (i mod w) of digit (i / w).  Self-contained
    (depends on Base.v only). *)
 From Bnum Require Import Base.
